@@ -29,6 +29,7 @@ class Target(Maintainable):
         self.table = table        # tag -> (duration, need, cost)
         self.log = log
         self.on_start = None
+        self.on_end = None
 
     def get_work_order_duration(self, tag):
         self.log.append(('duration', self.name, tag))
@@ -48,6 +49,9 @@ class Target(Maintainable):
 
     def end_work(self, tag):
         self.log.append(('end', self.name, tag))
+        if self.on_end:
+            f, self.on_end = self.on_end, None
+            f()
 
 
 PAIRS = [('T0', 'a'), ('T0', 'b'), ('T1', 'a'), ('T1', 'b')]
@@ -69,8 +73,13 @@ def _subs(tier):
             params += [[f'dur{p}', 0, T], [f'need{p}', 0, T], [f'cost{p}', 0 if p == 0 else 1, T]]
         for i in range(1, r):        # the first request is issued at time 0 (nothing can happen before it)
             params.append([f'd{i}', 0, T])
-        for nested in ([False, True] if assign[:2] == (0, 2) and (tier != 'quick' or assign == (0, 2, 1)) else [False]):
-            sub = {'name': 'req-' + ''.join(map(str, assign)) + ('-nested' if nested else ''),
+        variants = [False]
+        if assign[:2] == (0, 2) and (tier != 'quick' or assign == (0, 2, 1)):
+            variants.append(True)
+        if assign in ((0, 2, 0), (0, 1, 0)):
+            variants.append('end')          # the last request repeats the first order from inside that order's end_work hook
+        for nested in variants:
+            sub = {'name': 'req-' + ''.join(map(str, assign)) + ('-nested' if nested is True else '-from-end-hook' if nested else ''),
                    'shape': {'assign': list(assign), 'nested': nested}, 'params': list(params)}
             # case split: burst or not for the 2nd/3rd request, first order fits or not
             out += [s for s in split_by_order(sub, [('d1', '0'), ('d2', '0'), (f'need{assign[0]}', 'cap')])
@@ -93,7 +102,7 @@ def bounds_text(tier):
 
 def required_goals(tier):
     return ['duplicate_rejected', 'order_waited_for_capacity', 'order_waited_for_target', 'overtaking', 'two_active',
-            'burst_same_instant', 'zero_duration', 'never_fits', 'finished', 'request_from_hook']
+            'burst_same_instant', 'zero_duration', 'never_fits', 'finished', 'request_from_hook', 'request_from_end_hook']
 
 
 def signature(f):
@@ -241,9 +250,13 @@ def run(shape, args, ctx):
     n = len(shape['assign'])
     for i in range(n):
         t = t + args.get(f'd{i}', 0)
-        if shape.get('nested') and i == n - 1:
+        if shape.get('nested') is True and i == n - 1:
             # the last request is issued from inside the start_work hook of the first order
             targets['T0'].on_start = lambda i=i: (ctx.goal('request_from_hook'), request(i))
+            continue
+        if shape.get('nested') == 'end' and i == n - 1:
+            # ... or from inside the end_work hook of the first order (which is still in progress then)
+            targets['T0'].on_end = lambda i=i: (ctx.goal('request_from_end_hook'), request(i))
             continue
         act = (lambda i=i: request(i))
         env.schedule_event(t, -7, act, EventType.OTHER_LOW_PRIORITY if i % 2 == 0 else EventType.OTHER_HIGH_PRIORITY, f'request {i}')
